@@ -125,6 +125,24 @@ def extract(repo):
     vb = one(r"pub\(crate\) fn verify\(.*?pub\(crate\) fn verify_legacy", pf, "Proof::verify body").group(0)
     seqv = re.findall(r"transcript\s*\.\s*(append_scalar|append_commitment|challenge_scalar)\(\s*b\"([^\"]+)\"", vb)
     lists["VERIFIER_TRANSCRIPT"] = ["%s:%s" % ({"append_scalar": "s", "append_commitment": "c", "challenge_scalar": "ch"}[k], l) for (k, l) in seqv]
+    # ---- which VALUE goes under which label (a swapped / duplicated argument keeps the label list intact)
+    def bound_args(body, what):
+        pairs = []
+        for m in re.finditer(r"\.\s*(append_scalar|append_commitment)\(\s*b\"([^\"]+)\"\s*,\s*([^;]*?)\)\s*[;)]", body, flags=re.S):
+            arg = re.sub(r"\s+", "", m.group(3)).rstrip(",")
+            last = re.findall(r"[A-Za-z_][A-Za-z0-9_]*", arg)
+            if not last:
+                raise Missing("%s: argument of label %s" % (what, m.group(2)))
+            pairs.append("%s=%s" % (m.group(2), last[-1]))
+        if not pairs:
+            raise Missing(what + ": no append calls found")
+        return pairs
+    lv = one(r"pub\(crate\) fn verify_legacy\(.*?\n    \}\n", pf, "Proof::verify_legacy body").group(0)
+    for nm, bd, what in (("SEED", sb, "seed_transcript_inner"), ("PROVER", body, "prove_inner"), ("VERIFIER", vb, "Proof::verify"),
+                         ("VERIFIER_LEGACY", lv, "Proof::verify_legacy")):
+        prs = bound_args(bd, what)
+        lists[nm + "_BOUND_LABELS"] = [x.split("=")[0] for x in prs]
+        lists[nm + "_BOUND_FIELDS"] = [x.split("=")[1] for x in prs]
     return out, lists
 
 def lean_nat(v):
